@@ -988,3 +988,54 @@ pub fn orchestrate(a: OrchArgs) -> i32 {
     }
     exit
 }
+
+// ---------------------------------------------------------------------------------------------
+// self-test: determinism across repeated executions and worker counts
+
+pub fn selftest_determinism(seeds: u64, runs_per_seed: u64) -> i32 {
+    let scratch = scratch_dir();
+    let mut bad = 0u64;
+    let mut pairs = 0u64;
+    for (pid, name) in crate::scenarios::ALL {
+        let scen = scenario_by_name(name).unwrap();
+        let info = scen.info();
+        ALLOC_ABORT_IS_VIOLATION.store(info.alloc_abort_is_violation, std::sync::atomic::Ordering::Relaxed);
+        let known: BTreeSet<String> = load_findings(pid).into_iter().filter(|f| f.status == "known").map(|f| f.signature).collect();
+        let indices: Vec<u64> = (0..runs_per_seed).collect();
+        let mut mism = 0u64;
+        for sd in 0..seeds {
+            let seed = DEFAULT_SEED ^ (sd.wrapping_mul(0x9E3779B97F4A7C15));
+            let a = run_sharded(&scratch, info.name, seed, Tier::Quick, &indices, 1, &known, "d1");
+            let b = run_sharded(&scratch, info.name, seed, Tier::Quick, &indices, 4, &known, "d4");
+            let c = run_sharded(&scratch, info.name, seed, Tier::Quick, &indices, 16, &known, "d16");
+            for i in &indices {
+                pairs += 2;
+                let (x, y, z) = (a.digests.get(i), b.digests.get(i), c.digests.get(i));
+                if x != y {
+                    mism += 1;
+                }
+                if x != z {
+                    mism += 1;
+                }
+            }
+            let va: Vec<_> = a.violations.iter().map(|(i, v)| (*i, v.signature.clone())).collect();
+            let vb: Vec<_> = b.violations.iter().map(|(i, v)| (*i, v.signature.clone())).collect();
+            let vc: Vec<_> = c.violations.iter().map(|(i, v)| (*i, v.signature.clone())).collect();
+            if va != vb || va != vc {
+                mism += 1;
+            }
+            if a.fps != b.fps || a.fps != c.fps || a.states != b.states || a.states != c.states || a.faults != b.faults || a.faults != c.faults {
+                mism += 1;
+            }
+        }
+        println!("determinism {} {}: {} seeds x {} runs at W=1,4,16 -> {} mismatches", pid, name, seeds, runs_per_seed, mism);
+        bad += mism;
+    }
+    let _ = fs::remove_dir_all(&scratch);
+    println!("determinism: {} digest pairs compared, {} mismatches", pairs, bad);
+    if bad > 0 {
+        2
+    } else {
+        0
+    }
+}
